@@ -3,11 +3,11 @@ from checklib import cbytes, clist, cpair, cN
 
 ID = "C15"
 HARNESS = "c15"
-N_CASES = {"quick": 220, "thorough": 6000}
+N_CASES = {"quick": 120, "thorough": 4000}
 N_SEARCH = {"quick": 1, "thorough": 2}
-SHARD = 40
+SHARD = 15
 HAS_MODEL_OUT = True
-RULE = ("seeded histories (2-12 steps) of Add / Del / ExecuteBatch / Backup+Restore on a real RocksDB directory: "
+RULE = ("seeded histories (2-16 steps) of Add / Del / ExecuteBatch / Backup+Restore on a real RocksDB directory: "
         "small key and value alphabets (empty value, values that are prefixes of each other, values that look like the "
         "length framing, the empty key), batches with duplicate keys, deletions of what the same batch adds and of absent "
         "values (failing batches), batches of 13-40 pairs (sort.Slice beyond insertion sort), random long keys/values; "
@@ -61,8 +61,8 @@ def _op(d, s):
 
 
 def _obs(d, o):
-    return "(mkobs %s %s %s %s)" % (cN(o["fe_err"]), clist([d.b(v) for v in o["vals"]]),
-                                    cN(o["find_err"]), d.b(o.get("find_val")))
+    return "(mkobs %s %s %s %s %s)" % (cN(o["fe_err"]), clist([d.b(v) for v in o["vals"]]),
+                                       cN(o["find_err"]), d.b(o.get("find_val")), cN(o.get("present", 2)))
 
 
 def to_coq(c):
